@@ -29,7 +29,7 @@ CIA_T = [100.0, 1000.0, 3500.0]
 DIMS = {
     'N': [3, 2, 4, 5, 7],
     'mag': ['thin', 'zero', 'tau1', 'mixed', 'sat'],
-    'contribs': [list(c) for k in range(0, 5) for c in itertools.combinations(['abs', 'cia', 'ray', 'lee'], k)],
+    'contribs': [list(c) for k in range(0, 6) for c in itertools.combinations(['abs', 'cia', 'ray', 'lee', 'flat'], k)],
     'path': ['old', 'new'],
     'prange': [[1e6, 1e-1], [1e5, 1e1], [1e7, 1e-4]],
     'planet': [[1.0, 1.0], [0.5, 0.1], [1.7, 3.0]],
@@ -77,6 +77,9 @@ def spec_of(case, scale):
         elif c == 'lee':
             mix = 0.0 if case['mag'] == 'zero' else {'thin': 1e-16, 'tau1': 1e-10, 'mixed': 1e-10, 'sat': 1e-2}[case['mag']]
             contribs.append(['lee', {'lee_mie_mix_ratio': mix * scale, 'lee_mie_radius': 0.05, 'lee_mie_q': 40}])
+        elif c == 'flat':
+            mix = 0.0 if case['mag'] == 'zero' else {'thin': 1e-36, 'tau1': 1e-30, 'mixed': 1e-30, 'sat': 1e-20}[case['mag']]
+            contribs.append(['flat', {'flat_mix_ratio': mix * scale, 'flat_topP': 3e0, 'flat_bottomP': 2e4}])
         else:
             contribs.append(c)
     gases = [['H2O', case['abund']], ['CH4', ['const', 3e-5]]]
@@ -120,7 +123,7 @@ def reference(m, case, tabs, cia):
                 if s is not None:
                     sig += s[None, :] * np.asarray(m.chemistry.get_gas_mix_profile(g), float)[:, None]
             taus.append(rt.slant_tau(sig, dens, segs, 1))
-        elif nm == 'LeeMieContribution':
+        elif nm in ('LeeMieContribution', 'FlatMieContribution'):
             taus.append(rt.slant_tau(np.asarray(c.sigma_xsec, float), dens, segs, 1))
         else:
             raise RuntimeError(nm)
